@@ -91,7 +91,7 @@ def run(ctx):
                         p2.append("footer segment is not the whole second half of split_once('.')")
                 else:
                     rest = src     # no '.' in the input: whole remainder is the payload
-                    if "Option::None" not in repr(v[2][1]):
+                    if not empty_bytes(v[2][1]):
                         p2.append("token without '.' does not store an empty footer")
                 consts, base = strip_chain(rest)
             else:
